@@ -572,6 +572,14 @@ class T2(T):
                 e.get("opcode") not in ("==", "!=", "<=", ">="):
             l = strip(e["inner"][0])
             if self.local_reg(l) is not None:
+                r_ = self.local_reg(l)
+                if self.is_mem(r_) and self.spec.get("mem_assign_havoc"):
+                    st_ = self.site(e, "store to tracked memory")
+                    out.append(f"(.ev {st_} 0)")
+                    after.append(f"(.havoc {r_} {st_})")
+                    for c in kids(e)[1:]:
+                        out += self.scan(c)
+                    return out + after
                 raise self.U("tracked local / memory location assigned inside an expression: " + self.text(e))
             if not self.is_local_lvalue(l):
                 kind_ = (self.spec.get("marked_stores") or {}).get(re.sub(r"\s+", "", self.text(e, 200)), 0)
@@ -1078,4 +1086,31 @@ def translate_oblige(spec, fdecl, src, consts, U, root, with_loop_body=False):
     if body_prog is not None:
         out += ["/-- one iteration of the function's only loop -/", "def loopBody : Stmt :=", body_prog, ""]
     out += ["end Nice.Gen." + spec["lean_ns"], ""]
+    return "\n".join(out), {"sites": len(t.sites)}
+
+
+# ---------------------------------------------------------------------------------------------------------------------
+# agent/agent.c nice_agent_remove_stream (C13 / C12): the agent-wide keepalive timer goes only with the LAST stream
+# ---------------------------------------------------------------------------------------------------------------------
+SPEC_RMSTREAM = {
+    "lean_ns": "RemoveStream", "file": "agent/agent.c", "fn": "nice_agent_remove_stream",
+    "locals": {}, "offset": {}, "cond_calls": {}, "bool_result_calls": set(),
+    "mem_regs": {"agent->streams": 0},
+    "mem_assign_havoc": True,        # `agent->streams = g_slist_remove (..)`: NULL or not afterwards
+    "mem_stable": True,              # (no callee changes the list head behind the function's back: it holds the agent lock)
+    "pure": set(),
+    "marked": {"priv_remove_keepalive_timer": 6},
+}
+
+
+def translate_rmstream(spec, fdecl, src, consts, U, root):
+    t = T2(spec, fdecl, src, consts, U, {})
+    prog = t.top()
+    out = [f"/- GENERATED by tools/extract_flow.py from {spec['file']} {spec['fn']} — do not edit.",
+           "   Skeleton (see lean/Nice/Model/Flow.lean).  r0 = agent->streams (0 = NULL: no stream left; havocked by the assignment",
+           "   `agent->streams = g_slist_remove (..)`).  Event kind 6 = priv_remove_keepalive_timer.  Sites:"]
+    for i, d in enumerate(t.sites):
+        out.append(f"     {i} — {d}".replace("/-", "/ -").replace("-/", "- /"))
+    out += ["-/", "import Nice.Model.Flow", "namespace Nice.Gen." + spec["lean_ns"], "open Nice.Flow", "",
+            "def prog : Stmt :=", prog, "", "end Nice.Gen." + spec["lean_ns"], ""]
     return "\n".join(out), {"sites": len(t.sites)}
